@@ -508,7 +508,11 @@ def insert_loops(body, loops, where):
                 raise Unsupported("for-loop header not recognised: " + hdr)
             hdr = hdr[:mo.end()] + lp["ghost"] + ": " + hdr[mo.end():]
         new = hdr.rstrip() + spec + "\n"
-        body = body[:x.start()] + new + body[k:]
+        if lp.get("body_head"):
+            # ghost text placed first inside the loop body: independent of the statements of the body
+            body = body[:x.start()] + new + "{ proof { %s } " % lp["body_head"].strip() + body[k + 1:]
+        else:
+            body = body[:x.start()] + new + body[k:]
         log.append(("ghost-loop", "%s loop #%d" % (kw, lp["index"]), norm_ws(spec)[:200]))
     return body, log
 
@@ -630,7 +634,7 @@ def emit_fn(f, udir, unit_props, recs, log_global):
         if "extend" in rewrites:
             body, l = r_extend(body)
             log += l
-        if "optmap" in rewrites:
+        if "optmap" in rewrites or ("resmap" not in rewrites and "no-optmap" not in rewrites):
             body, l = r_optmap(body)
             log += l
         if "resmap" in rewrites:
@@ -733,7 +737,37 @@ def assemble(unit_name, canary=False, demote=()):
         add(_read_rel(udir, rel) + "\n")
     recs = []
     cur_impl = None
-    for f in u.get("fn", []):
+    fns = list(u.get("fn", []))
+    # include_all = ["numeric", ...]: every function proved in those units is made available here as an assumed stub with the
+    # same contract text (so an edit that starts using another method of e.g. BigNum still reaches the verifier)
+    have = set()
+    for f in fns:
+        have.add(f.get("from_id") if "from_unit" in f else fn_id(f))
+    extra = []
+    for inc in u.get("include_all", []):
+        only = None
+        if isinstance(inc, dict):
+            only = inc.get("impls")
+            inc = inc["unit"]
+        for f in load_unit(inc).get("fn", []):
+            if "from_unit" in f or f.get("variant"):
+                continue
+            if only is not None and f.get("impl") not in only:
+                continue
+            fid = fn_id(f)
+            if fid in have:
+                continue
+            if (f.get("impl") or "").startswith("impl From<") or (f.get("impl") or "").startswith("impl TryFrom<"):
+                continue
+            have.add(fid)
+            extra.append(dict(from_unit=inc, from_id=fid))
+    # stubs first (grouped by impl), then the unit's own functions
+    fns = [f for f in fns if "from_unit" in f] + extra + [f for f in fns if "from_unit" not in f]
+    fns_sorted = []
+    seen_impl = {}
+    for f in fns:
+        fns_sorted.append(f)
+    for f in fns_sorted:
         if "from_unit" not in f and fn_id(f) in demote:
             # the function's spliced text does not compile (lost hint anchor / unsupported construct after an edit):
             # keep its contract as an assumption so the rest of the unit is still checked; the driver reports it UNDECIDED
@@ -742,7 +776,20 @@ def assemble(unit_name, canary=False, demote=()):
             emit_impl, text, rec = emit_fn(f, udir, props, recs, None)
             rec.mode = "demoted"
         else:
-            emit_impl, text, rec = emit_fn(f, udir, props, recs, None)
+            try:
+                emit_impl, text, rec = emit_fn(f, udir, props, recs, None)
+            except (AnchorLost, Unsupported) as e:
+                if "from_unit" in f:
+                    raise
+                # a hint/loop anchor of THIS function is gone (the function was edited): keep the rest of the unit decidable
+                f2 = dict(f)
+                f2["mode"] = "assume"
+                try:
+                    emit_impl, text, rec = emit_fn(f2, udir, props, recs, None)
+                except (AnchorLost, Unsupported):
+                    raise e
+                rec.mode = "demoted"
+                rec.demote_reason = "%s: %s" % (type(e).__name__, e)
         if emit_impl != cur_impl:
             if cur_impl:
                 add("}\n")
